@@ -195,18 +195,18 @@ impl Property for C19 {
         "C19"
     }
     fn rule(&self) -> String {
-        "Cases: for each of the 17 fixed types, a valid vector of length C-below (below in 0..=3) or an empty one and one request exceeding the capacity by d in 1..70 bits: zeros/ones/repeat(C+d) must panic; from_bytes/from_binary/from_hex/read/TryFrom<integer | slice | vector of every other type> must return Err; push, resize, sign_extend, append/prepend/insert (operand of any zoo type), extend and collect must panic. Returning normally is the violation (reported with the resulting len/capacity). Both build profiles run every case. In the profile with debug assertions only: get/set(i>=len), copy_range with start or end > len and split_off(i>len) must panic, on all 19 types. Enumerated: the complete product (type x below x d x operation x fill bit) with the operand type rotating; random adds operand types/positions. Non-trivial: every over-capacity request from a valid state is; distinct by hash of the case (type, operation, start length, d, operand type).".into()
+        "Cases: for each of the 18 fixed types, a valid vector of length C-below (below in 0..=3) or an empty one and one request exceeding the capacity by d in 1..70 bits: zeros/ones/repeat(C+d) must panic; from_bytes/from_binary/from_hex/read/TryFrom<integer | slice | vector of every other type> must return Err; push, resize, sign_extend, append/prepend/insert (operand of any zoo type), extend and collect must panic. Returning normally is the violation (reported with the resulting len/capacity). Both build profiles run every case. In the profile with debug assertions only: get/set(i>=len), copy_range with start or end > len and split_off(i>len) must panic, on all 20 types. Enumerated: the complete product (type x below x d x operation x fill bit) with the operand type rotating; random adds operand types/positions. Non-trivial: every over-capacity request from a valid state is; distinct by hash of the case (type, operation, start length, d, operand type).".into()
     }
     fn random_cases(&self, tier: Tier) -> u64 {
         tier.pick(150000, 4800000)
     }
     fn strategy(&self, tier: Tier) -> BoxedStrategy<C19Case> {
-        let over = ((0usize..17).prop_map(|i| FIXED_TIDS[i]), 0usize..5, 1usize..70, 0usize..18, any::<bool>(), 0..NT, any::<u16>()).prop_map(|(ty, below, d, o, fill, other, at)| C19Case::Over { ty, below, d, op: OVER_OPS[o], fill, other, at });
+        let over = ((0usize..18).prop_map(|i| FIXED_TIDS[i]), 0usize..5, 1usize..70, 0usize..18, any::<bool>(), 0..NT, any::<u16>()).prop_map(|(ty, below, d, o, fill, other, at)| C19Case::Over { ty, below, d, op: OVER_OPS[o], fill, other, at });
         let bad = (arb_operand(tier), 0usize..5, prop_oneof![Just(0usize), Just(1), 0usize..200]).prop_map(|(a, w, beyond)| C19Case::BadIndex { a, which: [BadIdx::Get, BadIdx::Set, BadIdx::CopyRangeEnd, BadIdx::CopyRangeStart, BadIdx::SplitOff][w], beyond });
         prop_oneof![5 => over, 1 => bad].boxed()
     }
     fn exhaustive_subspaces(&self, _tier: Tier) -> Vec<String> {
-        vec!["complete product: 17 fixed types x start length {C-3..C, 0} x d in 1..70 x 18 over-capacity operations x fill bit (operand type rotates over the 19 zoo types)".into()]
+        vec!["complete product: 18 fixed types x start length {C-3..C, 0} x d in 1..70 x 18 over-capacity operations x fill bit (operand type rotates over the 20 zoo types)".into()]
     }
     fn enumerate(&self, _tier: Tier, sh: &mut Shard, f: &mut dyn FnMut(C19Case) -> bool) {
         let mut rot: u32 = 0;
